@@ -24,8 +24,9 @@ Full statement / proved / missing
                       with `IdiomsSafe`, every history `ops` over the complete operation set (constructors incl.
                       parser/collector-built values with spare capacity, the `Hash.new(tree)` constructor, add, addAll,
                       delete, deleteAll, slice, the slices `EachSlice` hands out, map, select, reject, sort, flatten,
-                      unique, at/get of a nested container, merge, keys, values, entries, asArray, mapValues,
-                      select/rejectPairs, mutable-hash put/putAll, observers), every value `i` and every later time `j`:
+                      unique, at/get of a nested container, merge, `Hash.AddAll(Array)`, keys, values, entries, asArray,
+                      mapValues, select/rejectPairs, mutable-hash put/putAll, serializer → collector / deserializer
+                      copies, `ResolveDeferred`, observers), every value `i` and every later time `j`:
                       `content (runHeap P tbl (ops.take j)) i = pureResult ops i`.
                       By induction over the op list with the sealing invariant (`step_refines`: a step is the pure step
                       on the represented state and keeps every slice header valid; under a safe table no cell of an
